@@ -341,6 +341,19 @@ func c19Eval(s *vh.Session, lf layoutFile) string {
 
 func TestC19(t *testing.T) {
 	s := vh.Begin(t, "C19")
+	if s.ReplayIn != "" && s.ReplayTag() == "funcdocs" {
+		var p funcDocProgram
+		if err := s.LoadReplay(&p); err != nil {
+			t.Fatalf("INFRA: %v", err)
+		}
+		if msg := c19EvalFuncDocs(s, p); msg != "" {
+			if strings.HasPrefix(msg, "INFRA") {
+				t.Fatalf("%s", msg)
+			}
+			s.FailT(t, "funcdocs", p, msg)
+		}
+		return
+	}
 	if s.ReplayIn != "" {
 		var lf layoutFile
 		if err := s.LoadReplay(&lf); err != nil {
@@ -354,6 +367,7 @@ func TestC19(t *testing.T) {
 		}
 		return
 	}
+	t.Run("funcdocs", func(t *testing.T) { c19FuncDocs(t, s) })
 	rapid.Check(t, func(rt *rapid.T) {
 		lf := genLayoutFile(rt, rapid.IntRange(0, 4).Draw(rt, "wrong-kind") == 0)
 		msg := c19Eval(s, lf)
